@@ -33,7 +33,7 @@ def main():
     ap.add_argument('--src', required=True); ap.add_argument('--out', required=True); ap.add_argument('--tag', required=True)
     ap.add_argument('--root', action='append', default=[]); ap.add_argument('--cut', action='append', default=[])
     ap.add_argument('--enum', action='append', default=[]); ap.add_argument('--transparent', action='append', default=[])
-    ap.add_argument('--inc', action='append', default=[]); ap.add_argument('--global', dest='globals_', action='append', default=[]); ap.add_argument('--struct', action='append', default=[])
+    ap.add_argument('--inc', action='append', default=[]); ap.add_argument('--global', dest='globals_', action='append', default=[]); ap.add_argument('--struct', action='append', default=[]); ap.add_argument('--render-ns', dest='render_ns', action='append', default=[]); ap.add_argument('--global-src', dest='global_src', default=None)
     ap.add_argument('--no-line', action='store_true')
     a = ap.parse_args()
     os.makedirs(a.out, exist_ok=True)
@@ -43,6 +43,7 @@ def main():
         U = g2c.Unit(base + '.cfg', base + '.ssa', base + '.opt', base + '.cls')
         aliases = json.load(open(os.path.join(os.path.dirname(os.path.abspath(__file__)), 'aliases.json')))
         R = g2c.Renderer(U, base + '.o', aliases=aliases, line_directives=not a.no_line, transparent=a.transparent, enums=a.enum, extra_structs=a.struct)
+        R.render_ns = list(a.render_ns)
         R.render_closure(a.root, cut=a.cut)
         th, fc = R.resolve(a.out)
     except g2c.G2CError as e:
@@ -51,7 +52,18 @@ def main():
     if a.globals_:
         # constant tables: link the object into a shared object (relocations resolved) and read the initialised data
         so = base + '.so'
-        p = subprocess.run(['g++', '-shared', '-o', so, base + '.o'], capture_output=True, text=True)
+        gobj = base + '.o'
+        if a.global_src:
+            # the tables are defined in another translation unit of the repository: compile that one for its data
+            gsrc = a.global_src if os.path.isabs(a.global_src) else os.path.join(REPO, a.global_src)
+            gobj = base + '.gdata.o'
+            pg = subprocess.run(['g++'] + CXXFLAGS + ['-I' + REPO, '-I' + os.path.join(REPO, 'blocc')] + ['-I' + i for i in a.inc] + ['-c', gsrc, '-o', gobj], capture_output=True, text=True)
+            if pg.returncode != 0:
+                print('EXTRACTION-ABORT: g++ failed on %s: %s' % (a.global_src, pg.stderr[-800:]), file=sys.stderr); sys.exit(2)
+        # static, non-PIE link with undefined symbols ignored: every pointer inside the data is resolved at link time
+        p = subprocess.run(['g++', '-static', '-nostdlib', '-nostartfiles', '-no-pie', '-Wl,--unresolved-symbols=ignore-all,-e,0', '-o', so, gobj], capture_output=True, text=True)
+        if p.returncode != 0:
+            p = subprocess.run(['g++', '-shared', '-o', so, gobj], capture_output=True, text=True)
         reqf, outf = base + '.greq.json', base + '.gans.json'
         json.dump({'globals': a.globals_}, open(reqf, 'w'))
         here = os.path.dirname(os.path.abspath(__file__))
